@@ -46,6 +46,7 @@ func checkC18(c *core.Ctx) error {
 	c18FactoriesFresh(c)
 	c18AccessorShapes(c)
 	c18SubDistributionCount(c)
+	c18RecursiveExport(c)
 	c18LikeNamed(c)
 	c18NamedKeys(c)
 	c18DecoderComplete(c)
@@ -2811,6 +2812,62 @@ func c18SubDistributionCount(c *core.Ctx) {
 			})
 			c.Check(checked, "C18.R14", c.FuncName(pkg, fd), "number of decoded sub-distributions validated", store,
 				"the decoded list of sub-distributions is stored into the receiver without comparing its length with the number of components/states of the imported model: a configuration with a missing entry imports without error and the first LogPdf indexes past the end of the list")
+		})
+	}
+}
+
+// c18RecursiveExport (R15): an exporter of a recursive structure (a method that calls itself on the children of its
+// receiver) keeps the nesting: the result of the recursive call is added as ONE element. Splicing it into the parent's list
+// (append(r, child.Export().([]T)...)) flattens every level below the root, and the importer rebuilds a different tree.
+func c18RecursiveExport(c *core.Ctx) {
+	c.Rule("C18.R15", "recursive exporters add the export of a child as one element (no splicing of the child's list into the parent's)", 1)
+	for _, p := range c.LibPkgs() {
+		if !strings.Contains(p.PkgPath, "/statistics") {
+			continue
+		}
+		info := p.TypesInfo
+		pkg := p
+		core.EachFunc(p, func(_ *ast.File, fd *ast.FuncDecl) {
+			if fd.Recv == nil || !strings.HasPrefix(fd.Name.Name, "Export") {
+				return
+			}
+			self, _ := info.Defs[fd.Name].(*types.Func)
+			recursive := false
+			bad := token.NoPos
+			ast.Inspect(fd.Body, func(n ast.Node) bool {
+				ce, ok := n.(*ast.CallExpr)
+				if !ok {
+					return true
+				}
+				if fn := core.Callee(info, ce); fn != nil && fn == self {
+					recursive = true
+				}
+				// append(r, <something containing a recursive call>...)
+				if id, ok := ce.Fun.(*ast.Ident); ok && id.Name == "append" && ce.Ellipsis.IsValid() && len(ce.Args) == 2 {
+					inner := false
+					ast.Inspect(ce.Args[1], func(m ast.Node) bool {
+						if c2, ok := m.(*ast.CallExpr); ok {
+							if fn := core.Callee(info, c2); fn != nil && fn == self {
+								inner = true
+							}
+						}
+						return true
+					})
+					if inner {
+						bad = ce.Pos()
+					}
+				}
+				return true
+			})
+			if !recursive {
+				return
+			}
+			c.Check(bad == token.NoPos, "C18.R15", c.FuncName(pkg, fd), "child exports are nested, not spliced", func() token.Pos {
+				if bad != token.NoPos {
+					return bad
+				}
+				return fd.Pos()
+			}(), "the list exported for a child is spliced into the parent's list: every level of the tree below the root is lost, and the importer rebuilds a flat tree (a different model)")
 		})
 	}
 }
